@@ -47,8 +47,15 @@ impl<'i> TryFrom<&'i str> for expr::ValueExpr<'i> {
 /// the parser, and everything that walks the expression later, is recursive.
 const MAX_PAREN_DEPTH: usize = 128;
 
+/// A parenthesised expression with more operands than this (nested ones included) is refused
+/// as a syntax error: a chain `a + b + c ...` becomes a tree as deep as it is long.
+/// Every term is an operand twice, of a sum and of a product, so this allows 1024 terms.
+const MAX_EXPR_OPERANDS: usize = 2048;
+
 thread_local! {
     static PAREN_DEPTH: std::cell::Cell<usize> = const { std::cell::Cell::new(0) };
+    /// Operands seen so far in the outermost parenthesised expression being parsed.
+    static EXPR_OPERANDS: std::cell::Cell<usize> = const { std::cell::Cell::new(0) };
 }
 
 fn paren_expr<'i, I, E>(input: &mut I) -> winnow::Result<expr::ValueExpr<'i>, E>
@@ -60,6 +67,9 @@ where
     let depth = PAREN_DEPTH.get();
     if depth >= MAX_PAREN_DEPTH {
         return Err(E::from_input(input));
+    }
+    if depth == 0 {
+        EXPR_OPERANDS.set(0);
     }
     PAREN_DEPTH.set(depth + 1);
     let ret = trace(
@@ -233,10 +243,21 @@ where
     I: Stream + StreamIsPartial + Clone,
     <I as Stream>::Token: AsChar,
 {
+    let mut operand = operand;
+    // stops taking operands once the expression is too long; the rest of the chain is then
+    // left unparsed, which the enclosing parenthesis reports as a syntax error.
+    let bounded_operand = move |input: &mut I| {
+        let seen = EXPR_OPERANDS.get();
+        if seen >= MAX_EXPR_OPERANDS {
+            return Err(E::from_input(input));
+        }
+        EXPR_OPERANDS.set(seen + 1);
+        operand.parse_next(input)
+    };
     trace(
         "infixl",
         separated_foldl1(
-            operand,
+            bounded_operand,
             delimited(space0, operator, space0),
             |lhs, op, rhs| {
                 expr::Expr::Binary(expr::BinaryOpExpr {
